@@ -325,10 +325,16 @@ def make_r_fmt(disp="vfmt_disp", lit="vfmt_lit", hex2="vfmt_hex2_upper", wmap=No
     def merge_lits(text, ctx):
         pat = re.compile(r'%s\((\w+), "((?:[^"\\]|\\.)*)"\);(\s*)%s\(\1, "((?:[^"\\]|\\.)*)"\);' % (re.escape(lit), re.escape(lit)))
         n = 0
+        single = re.compile(r'\(\{ (%s\(\w+, "(?:[^"\\]|\\.)*"\)); \}\)' % re.escape(lit))
         while True:
             m = pat.search(text)
             if not m:
-                break
+                # a block left with ONE literal write is that write (so that it can merge with its neighbours)
+                text2 = single.sub(r"\1", text)
+                if text2 == text:
+                    break
+                text = text2
+                continue
             text = text[:m.start()] + '%s(%s, "%s%s");' % (lit, m.group(1), m.group(2), m.group(4)) + text[m.end():]
             n += 1
         if n:
@@ -387,6 +393,10 @@ def make_r_fmt(disp="vfmt_disp", lit="vfmt_lit", hex2="vfmt_hex2_upper", wmap=No
                     else:
                         e = rest[ai]
                         ai += 1
+                    if s[2] == "" and re.fullmatch(r'"(?:[^"\\]|\\.)*"', e.strip()):
+                        # `{}` of a string LITERAL: Display of a &str is the text itself - a literal segment like any other
+                        calls.append('%s(%s, %s);' % (lit, w, e.strip()))
+                        continue
                     if litvar and re.fullmatch(r"\*?&?\s*(\w+)", e.strip()) and re.fullmatch(r"\*?&?\s*(\w+)", e.strip()).group(1) in tainted:
                         raise Unsupported("literal text reaches the writer through the local `%s` (chosen earlier, written later): outside the event abstraction's reach" % e.strip())
                     if s[2] == "":
